@@ -180,6 +180,130 @@ def _bound_partials(fn, counter: list) -> None:
         counter[0] += 1
 
 
+def _bound_methods(fn, counter: list) -> None:
+    """``m = obj.attr`` (bound once, ``obj`` a plain chain never re-bound, ``m`` used only as a callee)
+    ... ``m(x)``  ->  ``obj.attr(x)``."""
+    stores = _stores(fn)
+    params = {a.arg for a in fn.args.posonlyargs + fn.args.args + fn.args.kwonlyargs}
+    cands = {}
+    for n in _walk_own(fn):
+        if isinstance(n, (ast.Assign, ast.AnnAssign)) and isinstance(getattr(n, "value", None), ast.Attribute) and _chain(n.value):
+            tg = n.targets if isinstance(n, ast.Assign) else [n.target]
+            r = _root(n.value)
+            if len(tg) == 1 and isinstance(tg[0], ast.Name) and stores.get(tg[0].id, 0) == 1 and tg[0].id not in params and r is not None and stores.get(r, 0) <= (0 if r in params else 1):
+                cands[tg[0].id] = n
+    if not cands:
+        return
+    uses: dict[str, list] = {k: [] for k in cands}
+    bad = set()
+    for n in ast.walk(fn):
+        if isinstance(n, ast.Name) and n.id in cands and isinstance(n.ctx, ast.Load):
+            par = getattr(n, "_parent", None)
+            if isinstance(par, ast.Call) and par.func is n:
+                uses[n.id].append(par)
+            else:
+                bad.add(n.id)
+    for nm, asg in cands.items():
+        if nm in bad or not uses[nm]:
+            continue
+        for call in uses[nm]:
+            call.func = clone(asg.value)
+        asg._drop = True  # type: ignore[attr-defined]
+        counter[0] += 1
+
+
+_REF_LOCALS = None
+
+
+def _reviewed_locals() -> dict:
+    """{function qualname -> local names of the reviewed tree} from reference/locals.json.gz."""
+    global _REF_LOCALS
+    if _REF_LOCALS is None:
+        import gzip
+        import json
+        from pathlib import Path
+
+        try:
+            d = json.loads(gzip.open(Path(__file__).resolve().parent.parent / "reference" / "locals.json.gz").read())
+            _REF_LOCALS = {q: {nm for _shape, names in v.get("s", []) for nm in names} for q, v in d.items()}
+        except Exception:
+            _REF_LOCALS = {}
+    return _REF_LOCALS
+
+
+def _attribute_aliases(fn, counter: list, reviewed: frozenset = frozenset()) -> None:
+    """``x = p.a`` / ``x: T = p.a.b`` as a top-level statement (``x`` bound once, ``p`` a parameter that is never
+    re-bound, no store to ``p.a`` or through it anywhere in the function)  ->  every later ``x`` reads ``p.a``."""
+    stores = _stores(fn)
+    params = {a.arg for a in fn.args.posonlyargs + fn.args.args + fn.args.kwonlyargs}
+    attr_stores = set()
+    for n in ast.walk(fn):
+        if isinstance(n, ast.Attribute) and isinstance(n.ctx, (ast.Store, ast.Del)):
+            attr_stores.add(_dotted(n))
+    for k, st in enumerate(list(fn.body)):
+        if not (isinstance(st, (ast.Assign, ast.AnnAssign)) and isinstance(getattr(st, "value", None), ast.Attribute)):
+            continue
+        tg = st.targets if isinstance(st, ast.Assign) else [st.target]
+        v = st.value
+        r = _root(v)
+        txt = _dotted(v)
+        if not (len(tg) == 1 and isinstance(tg[0], ast.Name) and txt and r in params and stores.get(r, 0) == 0 and stores.get(tg[0].id, 0) == 1 and tg[0].id not in params):
+            continue
+        if any(s_ == txt or s_.startswith(txt + ".") or txt.startswith(s_ + ".") for s_ in attr_stores):
+            continue
+        nm = tg[0].id
+        if nm in reviewed:
+            continue  # a local of the reviewed tree: the rules may address it by name
+        # used before its definition (loops) or in nested functions: leave alone
+        if any(isinstance(n, ast.Name) and n.id == nm for s_ in fn.body[:k] for n in ast.walk(s_)):
+            continue
+        if any(isinstance(n, (ast.FunctionDef, ast.AsyncFunctionDef, ast.Lambda)) and any(isinstance(x, ast.Name) and x.id == nm for x in ast.walk(n)) for s_ in fn.body for n in ast.walk(s_)):
+            continue
+        # in-place changes through the alias (x.append / x[k] = v / x += ..) keep their meaning under substitution,
+        # since x and p.a are the same object; only a re-binding of x would not, and x is bound once
+
+        class S(ast.NodeTransformer):
+            def visit_Name(self, n, nm=nm, v=v):
+                if n.id == nm and isinstance(n.ctx, ast.Load):
+                    return ast.copy_location(clone(v), n)
+                return n
+
+        for s_ in fn.body[k + 1:]:
+            S().visit(s_)
+        st._drop = True  # type: ignore[attr-defined]
+        counter[0] += 1
+
+
+def _percent_format(fn, counter: list) -> None:
+    """``"a %r b %s" % (x, y)``  ->  ``f"a {x!r} b {y!s}"`` (constant template of %r / %s / %% only, tuple display)."""
+    import re
+
+    class P(ast.NodeTransformer):
+        def visit_BinOp(self, node):
+            self.generic_visit(node)
+            if isinstance(node.op, ast.Mod) and isinstance(node.left, ast.Constant) and isinstance(node.left.value, str) and isinstance(node.right, ast.Tuple) and not any(isinstance(e, ast.Starred) for e in node.right.elts):
+                parts = re.split(r"(%[rs%])", node.left.value)
+                if "%" in "".join(p_ for p_ in parts if p_ not in ("%r", "%s", "%%")):
+                    return node
+                specs = [p_ for p_ in parts if p_ in ("%r", "%s")]
+                if len(specs) != len(node.right.elts):
+                    return node
+                vals, k = [], 0
+                for p_ in parts:
+                    if p_ in ("%r", "%s"):
+                        vals.append(ast.FormattedValue(value=node.right.elts[k], conversion=ord(p_[1]), format_spec=None))
+                        k += 1
+                    elif p_ == "%%":
+                        vals.append(ast.Constant(value="%"))
+                    elif p_:
+                        vals.append(ast.Constant(value=p_))
+                counter[0] += 1
+                return ast.copy_location(ast.JoinedStr(values=vals), node)
+            return node
+
+    P().visit(fn)
+
+
 def _drop_marked(stmts: list) -> list:
     out = []
     for st in stmts:
@@ -366,7 +490,7 @@ def _select_constant(fn, counter: list) -> None:
     fn.body = rec(fn.body)
 
 
-def surface_forms_function(fn) -> int:
+def surface_forms_function(fn, qual: str = "") -> int:
     counter = [0]
 
     def rec(stmts):
@@ -380,6 +504,13 @@ def surface_forms_function(fn) -> int:
     fn.body = rec(fn.body)
     _refresh(fn)
     _bound_partials(fn, counter)
+    _bound_methods(fn, counter)
+    _percent_format(fn, counter)
+    rl = _reviewed_locals()
+    from .inline import _reviewed
+
+    if qual in rl or qual in _reviewed():
+        _attribute_aliases(fn, counter, frozenset(rl.get(qual, ())))  # only locals an edit introduced
     fn.body = _drop_marked(fn.body) or [ast.Pass()]
     _counting_zip(fn, counter)
     fn.body = _exit_stack(fn.body, counter)
@@ -400,7 +531,7 @@ def surface_forms_repo(repo) -> int:
     n = 0
     for f in list(repo.funcs.values()):
         if isinstance(f, FuncInfo) and f.outer is None:
-            n += surface_forms_function(f.node)
+            n += surface_forms_function(f.node, f.qual)
     return n
 
 
